@@ -122,6 +122,13 @@ def sx_stmt(s):
         return f"(opmod {s[1]} {sx_path(s[2])} {s[3]} {1 if s[4] else 0} {s[5]} {sx_lop(s[6])})"
     if t == "opdef":
         return f"(opdef {s[1]} {sx_path(s[2])} {sx_val(s[3])} {s[4]} {sx_expr(s[5])})"
+    if t == "refuse":
+        # a statement the language refuses (a declaration whose target is an index expression ..): in the spec it is the canonical
+        # no-op - a failing one (assignment through a field of a struct type that does not exist: v_set fails on every value and
+        # changes nothing; the right-hand side is a literal) or, for the forms that complete without matching, `it = it`
+        if s[1] in REFUSE_OK:
+            return "(assign 0 (p) (read 0 (p)))"
+        return "(assign 0 (p (f 99 0)) (lit N))"
     if t == "everyop":
         return f"(everyop {s[1]} {sx_path(s[2])} {s[3]} {sx_expr(s[4])})"
     if t == "andop":
@@ -233,6 +240,23 @@ def r_expr(e):
     raise ValueError(e)
 
 
+# statements that must be REFUSED: a declaring position (:=, typed declaration, for-loop target, switch case, catch pattern, lambda
+# parameter) whose target is an index expression x[p] of an existing variable.  They declare nothing and must not write into x.
+REFUSE = {
+    "decl": lambda t, e: f"{t} := {e}",
+    "typed-decl": lambda t, e: f"{t}: int = {e}",
+    "typed-decl-list": lambda t, e: f"{t}: list = [{e}]",
+    "decl-pair": lambda t, e: f"zq_a, {t} := 1, {e}",
+    "for-target": lambda t, e: f"for ({t} <- [{e}, {e}]) null",
+    "for-target-pair": lambda t, e: f"for (zq_b, {t} <- [[1, {e}]]) null",
+    "switch-case": lambda t, e: f"switch ({e}) case {t} -> null",
+    "switch-case-fallthrough": lambda t, e: f"switch ([{e}, 0]) case {t}, zq_c -> null case _ -> null",
+    "catch-pattern": lambda t, e: f"try (throw {e}) catch {t} -> null",
+    "lambda-parameter": lambda t, e: f"(\\{t} -> null)({e})",
+}
+REFUSE_OK = {"switch-case-fallthrough"}
+
+
 def r_stmt(s):
     t = s[0]
     if t == "assign":
@@ -251,6 +275,8 @@ def r_stmt(s):
         return f"{nm(s[1])}{r_path(s[2])} {BOPS[s[3]]}= " + (f"[{rhs}]" if s[4] else f"({rhs})")
     if t == "opdef":
         return f"({nm(s[1])}{r_path(s[2])} = {r_val(s[3])}) {BOPS[s[4]]}= {r_expr(s[5])}"
+    if t == "refuse":
+        return REFUSE[s[1]](f"{nm(s[2])}{r_path(s[3])}", r_val(s[4]))
     if t == "everyop":
         return f"every {nm(s[1])}{r_path(s[2])} {BOPS[s[3]]}= {r_expr(s[4])}"
     if t == "andop":
@@ -749,6 +775,10 @@ class Gen:
                 wrap = r.random() < 0.6
                 f = "concat" if wrap else r.choice(["append", "append", "concat"])
                 return ("opmod", x, p, f, wrap, y, m)
+        if k < 0.455:
+            got = self.refuse(st, x)
+            if got is not None:
+                return got
         if k < 0.47:
             got = self.everyop(st, x) if r.random() < 0.55 else self.andop(st, x, lo)
             if got is not None:
@@ -799,6 +829,22 @@ class Gen:
         p, _ = self.anynode(v)
         q, _ = self.anynode(st[y])
         return ("swap", x, p, y, q)
+
+    def refuse(self, st, x):
+        """a refused declaration into an existing slot x[p] of a (usually aliased) container"""
+        r = self.r
+        got = self.pick(st[x], lambda n: (n[0] in ("L", "X", "S", "V", "B") and nitems(n) > 0) or (n[0] == "D" and nitems(n) > 0))
+        if got is None:
+            return None
+        p, node = got
+        ch = self.children(node)
+        if ch:
+            pe, child = r.choice(ch)
+        else:
+            pe, child = ("i", r.randrange(0, len(node[1]))), None
+        # a value that would be accepted by a plain assignment to that slot
+        lit = {"S": ("S", self.bytes_(1)), "V": ("I", r.randrange(0, 9)), "B": ("I", r.choice([0, 9, 255]))}.get(node[0]) or r.choice([("I", 9), self.lit(1)])
+        return ("refuse", r.choice(sorted(REFUSE)), x, list(p) + [pe], lit)
 
     def everyop(self, st, x):
         """every x[p] f= e : through index paths and list slices; about a third of the time the operator fails on some element
@@ -899,6 +945,10 @@ class Gen:
         if k < 0.45:
             f = r.choice(["append", "concat", "plus", "addkey", "delkey", "union", "update"])
             c = r.random()
+            if c < 0.12:
+                got = self.refuse(st, x)
+                if got is not None:
+                    return got
             if c < 0.2:
                 return ("everyop", x, p + ([("sl", None, None)] if r.random() < 0.6 else [self.bad_pe()]), f, ("lit", self.arg_for(node, f)))
             if c < 0.35:
@@ -951,6 +1001,21 @@ class Gen:
         return self.sstmt(st, wellformed)
 
 
+def safe_keys(s, rng):
+    """the spec models to_key for integers and strings only (C09 covers keys): whatever stream produced the statement, the
+    literal right operand of `|.` / `-.` is an integer or a string"""
+    t = s[0]
+    if t == "for":
+        return (t, s[1], s[2], [safe_keys(b, rng) for b in s[3]])
+    pos = {"op": (3, 4), "everyop": (3, 4), "andop": (2, 3), "opdef": (4, 5)}.get(t)
+    if pos and s[pos[0]] in ("addkey", "delkey"):
+        e = s[pos[1]]
+        if not (e[0] == "lit" and e[1][0] in ("I", "S")):
+            e = ("lit", ("I", rng.randrange(0, 5)))
+            s = s[:pos[1]] + (e,) + s[pos[1] + 1:]
+    return s
+
+
 def gen_history(rng, spec, nvars=None, length=None, p_bad=0.3):
     """generate one history guided by the spec's current state; returns (nvars, stmts, wraps)"""
     g = Gen(rng)
@@ -959,7 +1024,7 @@ def gen_history(rng, spec, nvars=None, length=None, p_bad=0.3):
     stmts, wraps = [], []
     st = [("N",)] * nvars
     for _ in range(length):
-        s = g.stmt(st, wellformed=rng.random() >= p_bad)
+        s = safe_keys(g.stmt(st, wellformed=rng.random() >= p_bad), rng)
         stmts.append(s)
         wraps.append("lambda" if (s[0] != "for" and rng.random() < 0.12) else "plain")
         tr = spec.run(nvars, stmts)
@@ -1126,7 +1191,7 @@ def tuplify_inner(y):
 
 
 TAGS = {"N", "I", "L", "S", "V", "B", "D", "X", "i", "s", "f", "sl", "lit", "read", "get", "list", "upd", "call", "lset", "levery", "lop",
-        "lpop", "lremove", "lconsume", "assign", "every", "op", "mod", "swap", "for", "opmod", "opdef", "everyop", "andop"}
+        "lpop", "lremove", "lconsume", "assign", "every", "op", "mod", "swap", "for", "opmod", "opdef", "everyop", "andop", "refuse"}
 
 ALPHABET = [
     ("assign", 1, [], ("lit", ("L", [("L", [("I", 1), ("I", 2)]), ("I", 3)]))),
